@@ -15,6 +15,7 @@ import hashlib
 import random
 
 from dsim.kernel import Violations
+from models.usb2_wire import gen_idle_data
 from models import usb2
 from models.usb2 import UTMIHost, token_packet, data_packet, sof_packet, handshake_packet
 from engines.usb2_device import device_bench, IDLE_INIT
@@ -105,6 +106,7 @@ def gen(rng, tier, index):
         ops.append({"op": "frame", "sof": frame_no, "bytes": b, "set_at": rng.choice(["just_before", "just_before", "early"]),
                     "set_lead": rng.choice([1, 1, 2, 6]), "early_pos": rng.choice(["start", "end"]),
                     "sof_gap": 2 * bit + 1 + rng.choice([0, 0, 2, 8, 30]), "tokens": tokens})
+    cfg["idle_data"] = gen_idle_data(rng)
     return {"engine": ENGINE, "config": cfg, "ops": ops}
 
 
@@ -217,7 +219,7 @@ def run(scn):
             yield from h.idle(2 * bit + 1)
         yield from h.idle(10)
 
-    host = UTMIHost(script, byte_period=cfg["byte_period"], pre=cfg["pre"], post=cfg["post"],
+    host = UTMIHost(script, idle_data=cfg.get("idle_data"), byte_period=cfg["byte_period"], pre=cfg["pre"], post=cfg["post"],
                     txready=(cfg["txready"] if cfg["txready"] == "always" else tuple(cfg["txready"])))
     ntok = sum(len(op.get("tokens", [])) for op in ops)
     max_cycles = 600 + len(ops) * (80 + 12 * bit) + ntok * ((mps + 6) * 8 + 2 * timeout + 60 + 30 * bit) + sum(op.get("n", 0) for op in ops)
